@@ -216,6 +216,74 @@ func ruleC08(c *Ctx, r *Report) {
 			r.Check(okh, "C08-R3", construct, c.InstrPos(call), detail, "processing error does not reach a non-zero exit status: "+detail)
 		}
 	}
+	// R5: no unflushed buffer between the scan loop and the file: the writer handed to a
+	// wrapper is an *os.File, or a buffering writer whose Flush result is checked on every
+	// path from the successful wrapper call to the end of the command
+	r.Floor("C08-R5", 2, "writer arguments at the CLI call sites (3 today)")
+	for _, f := range c.SortedFuncs() {
+		if isWrapperFn[f] || !reach[f] {
+			continue
+		}
+		for _, call := range callsIn(f, func(k string, _ *ssa.Call) bool {
+			for _, wk := range wrapperKeys {
+				if k == wk {
+					return true
+				}
+			}
+			return false
+		}) {
+			callee := call.Call.StaticCallee()
+			if callee == nil {
+				continue
+			}
+			for ai, prm := range callee.Params {
+				it, ok := prm.Type().Underlying().(*types.Interface)
+				if !ok || !hasMethod(it, "Write") || ai >= len(call.Call.Args) {
+					continue
+				}
+				w := peel(call.Call.Args[ai])
+				construct := fmt.Sprintf("%s:writer-of(%s)", f.Name(), shortKey(calleeKey(&call.Call)))
+				tn := w.Type().String()
+				if tn == "*os.File" {
+					r.OK("C08-R5", construct, c.InstrPos(call), "records are written straight to an *os.File: every write error surfaces at the write")
+					continue
+				}
+				// a buffering writer: Flush must be called, checked, on every path to the normal end
+				flushKey := "(" + tn + ").Flush"
+				var tests []errTest
+				for _, ev := range errorResults(call) {
+					tests = append(tests, errTestsOf(ev)...)
+				}
+				okFlush := len(tests) > 0
+				detail := "writer of type " + tn + " has no checked Flush"
+				for _, t := range tests {
+					q := &pathQuery{
+						witness: func(i ssa.Instruction) bool {
+							fc, ok := i.(*ssa.Call)
+							if !ok || calleeKey(&fc.Call) != flushKey || len(fc.Call.Args) == 0 || peel(fc.Call.Args[0]) != w {
+								return false
+							}
+							okh, _ := checkCallErrHandled(fc, f.Signature.Results().Len() > 0, nil)
+							return okh
+						},
+						isEnd: func(i ssa.Instruction) (string, bool) {
+							if _, ok := i.(*ssa.Return); ok {
+								return "return", true
+							}
+							return "", false
+						},
+					}
+					if ends := q.run(t.NilSucc, 0, false); len(ends) > 0 {
+						okFlush = false
+						detail = fmt.Sprintf("records go through a buffering writer (%s) and the command can end at %s without a Flush whose error is checked: a write fault that surfaces at the final flush is lost and the run reports success", tn, c.InstrPos(ends[0].Instr))
+					}
+				}
+				r.Check(okFlush, "C08-R5", construct, c.InstrPos(call), "buffering writer flushed with its error checked on every path to the end of the command", detail)
+			}
+		}
+	}
+	// R6: a line cut short by a failing read is not completed and emitted
+	parserStrictRule(c, r, "C08-R6")
 	// also: go statements / deferred calls of the wrappers would lose the error
 	for _, f := range c.SortedFuncs() {
 		if !reach[f] {
